@@ -316,13 +316,213 @@ def trim_check(R, inv):
     return bad
 
 
+# ----------------------------------------------------------------------------- front end: data dictionary -> matrices -> forward task
+
+AR_KEYS = ['P/SHAmplitudeRatio', 'P/SVAmplitudeRatio', 'SH/SVAmplitudeRatio', 'P/SHRMSAmplitudeRatio', 'P/SVQAmplitudeRatio']
+
+
+def gen_front(rng):
+    """an event data dictionary (several data types, each with its own station subset and order), location records listing a
+    superset of the stations in another order, and a batch of tensors"""
+    pool = ['ST%02d' % i for i in range(1, 13)]
+    rng.shuffle(pool)
+    names = pool[:rng.randint(2, 8)]
+    pol_kind = rng.choice(['pol', 'prob', 'none'])
+    n_ar = rng.choice([0, 1, 2, 3]) if pol_kind != 'none' else rng.choice([1, 2, 3])
+    K = rng.choice([0, 0, 1, 2, 3])
+    ang = dict((n, (rng.uniform(0, 360), rng.uniform(0, 180))) for n in names)
+    front = {'types': [], 'samples': [], 'weights': None, 'pol_kind': pol_kind}
+    if pol_kind == 'pol':
+        keys = rng.sample(['PPolarity', 'SHPolarity', 'SVPolarity'], rng.choice([1, 2, 3]))
+    elif pol_kind == 'prob':
+        keys = rng.sample(['PPolarityProbability', 'SHPolarityProbability', 'SVPolarityProbability'], rng.choice([1, 2, 3]))
+    else:
+        keys = []
+    keys += rng.sample(AR_KEYS, n_ar)
+    for key in keys:
+        sub = [n for n in names if rng.random() < 0.7] or [names[0]]
+        rng.shuffle(sub)
+        t = {'key': key, 'names': sub, 'az': [ang[n][0] for n in sub], 'toa': [ang[n][1] for n in sub]}
+        if 'AmplitudeRatio' in key:
+            t['measured'] = [[rng.choice([-1, 1]) * 10 ** rng.uniform(-1, 1), rng.choice([-1, 1]) * 10 ** rng.uniform(-1, 1)] for _ in sub]
+            t['error'] = [[abs(m[0]) * rng.choice([0.01, 0.1, 0.5]), abs(m[1]) * rng.choice([0.01, 0.1, 0.5])] for m in t['measured']]
+        elif 'Probability' in key:
+            pp = [rng.choice([1.0, 0.0, rng.random()]) for _ in sub]
+            t['measured'] = [[p, round(1.0 - p, 12) if rng.random() < 0.8 else (1.0 - p) * rng.random()] for p in pp]
+            t['error'] = [[0.0] for _ in sub]
+        else:
+            t['measured'] = [[float(rng.choice([-1, 1]))] for _ in sub]
+            t['error'] = [[rng.choice([0.0, 0.05, 0.3, 1.0])] for _ in sub]
+        if 'Polarity' in key and rng.random() < 0.4:
+            t['mispick'] = [[rng.choice([0.0, 0.1, rng.random()])] for _ in sub]
+        front['types'].append(t)
+    if K:
+        loc = list(names) + [n for n in pool[len(names):] if rng.random() < 0.3]
+        rng.shuffle(loc)
+        for _ in range(K):
+            front['samples'].append({'names': loc, 'az': [rng.uniform(0, 360) for _ in loc], 'toa': [rng.uniform(0, 180) for _ in loc]})
+        if K > 1 and rng.random() < 0.6:
+            front['weights'] = [rng.choice([1.0, 2.0, 0.5, rng.uniform(0.1, 5)]) for _ in range(K)]
+    M = rng.choice([1, 2, 3, 6, 7])
+    front['mt'] = [[float(x) for x in unit6(rng)] for _ in range(M)]
+    front['return_zero'] = rng.random() < 0.5
+    return front
+
+
+def col(x):
+    return np.matrix([[float(v)] for v in x])
+
+
+def front_run(inv, front):
+    """the implementation's own path: Inversion._station_angles (the three matrix builders on the same location records) and ForwardTask"""
+    class Fake(object):
+        pass
+    f = Fake()
+    event = {}
+    for t in front['types']:
+        d = {'Stations': {'Name': list(t['names']), 'Azimuth': col(t['az']), 'TakeOffAngle': col(t['toa'])},
+             'Measured': np.matrix(t['measured']), 'Error': np.matrix(t['error'])}
+        if 'mispick' in t:
+            d['IncorrectPolarityProbability'] = np.matrix(t['mispick'])
+        event[t['key']] = d
+    samples = [{'Name': list(s['names']), 'Azimuth': col(s['az']), 'TakeOffAngle': col(s['toa'])} for s in front['samples']]
+    K = len(samples)
+    mult = list(front['weights']) if front['weights'] else [1.0] * K
+    f.location_pdf_files = [['loc']] if K else False
+    f._read_location = lambda fn: (samples, mult)
+    f.bin_angle_coefficient_samples = 0
+    f._relative = False
+    f._marginalise_relative = False
+    r = inv.Inversion._station_angles(f, event, 0)
+    mt = arr(front['mt']).T.copy()
+    task = inv.ForwardTask(mt, r[0], r[1], r[2], r[3], r[4], r[5], r[6], r[7], r[8], f.location_sample_multipliers, r[9],
+                           return_zero=front['return_zero'], marginalise=True)
+    with np.errstate(all='ignore'):
+        res = task()
+    return res
+
+
+def front_expected(inv, front):
+    """the statement: one row per observation, coefficients of that station's own ray in every location record (matched by name)"""
+    K = max(1, len(front['samples']))
+    case = {'K': K, 'M': len(front['mt']), 'mt': front['mt'], 'pol_kind': front['pol_kind'], 'marginalise': True,
+            'return_zero': front['return_zero'], 'weights': front['weights'] if len(front['samples']) > 1 else None}
+    if len(front['samples']) == 1 and front['weights']:
+        case['weights'] = front['weights']
+
+    def rays(t, j, phase):
+        n = t['names'][j]
+        out = []
+        if front['samples']:
+            for s in front['samples']:
+                if n not in s['names']:
+                    return None
+                i = s['names'].index(n)
+                out.append(np.asarray(inv.station_angles({'Azimuth': col([s['az'][i]]), 'TakeOffAngle': col([s['toa'][i]])}, phase)).flatten())
+        else:
+            out.append(np.asarray(inv.station_angles({'Azimuth': col([t['az'][j]]), 'TakeOffAngle': col([t['toa'][j]])}, phase)).flatten())
+        return out
+    mis = []
+    anymis = False
+    for t in sorted(front['types'], key=lambda t: t['key']):
+        key = t['key']
+        for j in range(len(t['names'])):
+            if 'AmplitudeRatio' in key:
+                ph = key.split('AmplitudeRatio')[0]
+                for suf in ('QRMS', 'RMS', 'Q'):
+                    if ph.endswith(suf):
+                        ph = ph[:-len(suf)]
+                        break
+                p1, p2 = ph.split('/')
+                r1, r2 = rays(t, j, p1), rays(t, j, p2)
+                if r1 is None:
+                    continue
+                case.setdefault('a1', []).append([x.tolist() for x in r1])
+                case.setdefault('a2', []).append([x.tolist() for x in r2])
+                m = t['measured'][j]
+                case.setdefault('ratio', []).append(abs(m[0] / m[1]))
+                case.setdefault('pe1', []).append(t['error'][j][0] / abs(m[0]))
+                case.setdefault('pe2', []).append(t['error'][j][1] / abs(m[1]))
+            else:
+                ph = key.split('Polarity')[0]
+                r = rays(t, j, ph)
+                if r is None:
+                    continue
+                w = t['mispick'][j][0] if 'mispick' in t else 0.0
+                anymis = anymis or w != 0
+                mis.append(w)
+                if 'Probability' in key:
+                    case.setdefault('a_prob', []).append([x.tolist() for x in r])
+                    case.setdefault('pp', []).append(t['measured'][j][0])
+                    case.setdefault('pn', []).append(t['measured'][j][1])
+                else:
+                    case.setdefault('a_pol', []).append([(x * t['measured'][j][0]).tolist() for x in r])
+                    case.setdefault('err_pol', []).append(t['error'][j][0])
+    case['mispick'] = mis if anymis else 0
+    return case
+
+
+def forward_result(res, case):
+    """the result dictionary of a forward task in the form compare() expects"""
+    if not isinstance(res, dict):
+        return {'error': 'forward task returned %r' % (res,)}
+    L = np.asarray(res['ln_pdf']._ln_pdf if hasattr(res['ln_pdf'], '_ln_pdf') else res['ln_pdf'], dtype=float)
+    mts = np.asarray(res['moment_tensors'], dtype=float)
+    if L.size == 0:
+        return {'rows': [], 'cols': [], 'n': res['n']}
+    if L.ndim == 1:
+        L = L.reshape(1, -1)
+    orig = arr(case['mt'])
+    cols = []
+    for j in range(mts.shape[1]):
+        hit = [i for i in range(orig.shape[0]) if np.array_equal(orig[i], mts[:, j])]
+        if len(hit) != 1:
+            return {'error': 'returned tensor column %d is not one of the candidates' % j}
+        cols.append(hit[0])
+    if L.shape[1] != len(cols):
+        return {'error': 'log-probabilities (%d) and tensors (%d) differ in number' % (L.shape[1], len(cols))}
+    if np.isnan(L).any():
+        return {'error': 'NaN in the reported log-probabilities'}
+    return {'rows': L.tolist(), 'cols': cols, 'n': res['n']}
+
+
+def front_check(inv, pr, front):
+    case = front_expected(inv, front)
+    if not any(k in case for k in ('a_pol', 'a_prob', 'a1')):
+        return None, case
+    try:
+        out = forward_result(front_run(inv, front), case)
+    except Exception as ex:
+        out = {'error': 'front end raised %s: %s' % (type(ex).__name__, ex)}
+    return compare(case, atoms(pr, case), out), case
+
+
+def front_oracle(R, inv, pr):
+    bad = None
+    dist = {'with_location_records': 0, 'several_ratio_types': 0, 'several_polarity_types': 0, 'weighted': 0}
+    for i in range(R.n(60, 1200)):
+        front = gen_front(R.rng)
+        R.count(('front', i), nontrivial=len(front['types']) > 1)
+        dist['with_location_records'] += bool(front['samples'])
+        dist['several_ratio_types'] += sum('AmplitudeRatio' in t['key'] for t in front['types']) > 1
+        dist['several_polarity_types'] += sum('Polarity' in t['key'] for t in front['types']) > 1
+        dist['weighted'] += bool(front['weights'])
+        why, case = front_check(inv, pr, front)
+        if why and bad is None:
+            bad = {'check': 'event data -> matrices -> forward task: ' + why, 'front': front}
+    R.cov['front_end_cases'] = dist
+    return bad
+
+
 def run(R):
     inv, pr = _impl()
     proved = R.prove()
     R.assumptions += ['atoms of the executed model are the implementation\'s own per-station probabilities (C02/C03 are about them), each '
                       'obtained from a call with one station, one location sample and one tensor',
                       'exp/log of the reported log-probabilities is compared to 1e-8 relative; zero / non-zero status exactly',
-                      'numpy broadcasting and the try/except flow of ForwardTask are modelled by hand (Model/Forward.v)']
+                      'numpy broadcasting and the try/except flow of ForwardTask are modelled by hand (Model/Forward.v)',
+                      'front-end cases (event dictionary with several data types and location records -> Inversion._station_angles -> '
+                      'ForwardTask) are judged by the direct oracle only: one row per observation, matched to the location records by name']
     n = R.n(160, 4000)
     exprs, cases, bad = [], [], None
     dist = {}
@@ -356,6 +556,9 @@ def run(R):
     tb = trim_check(R, inv)
     if tb and bad is None:
         bad = tb
+    fb = front_oracle(R, inv, pr)
+    if fb and bad is None:
+        bad = fb
     if bad:
         R.violation('forward task: %s' % bad['check'], bad)
     R.cov['rule'] = ('random ForwardTask configurations: manual polarities | polarity probabilities | none, 0-4 amplitude ratios, 1-4 location '
@@ -367,6 +570,10 @@ def run(R):
 
 def replay(R, body):
     inv, pr = _impl()
+    if 'front' in body['replay']:
+        why, case = front_check(inv, pr, body['replay']['front'])
+        print('oracle:', why or 'holds')
+        return 1 if why else 0
     case = body['replay']['case']
     out = run_forward(inv, case)
     why = compare(case, atoms(pr, case), out)
